@@ -157,6 +157,8 @@ theorem C08_request_confidential {D : Bytes → Bytes → Prop} (fuel : Node →
     intro hk; exact absurd hk (by decide)
   case replicateRequest str op =>
     simp only [Node.processObj]
+    split
+    · exact relOut_same D n d hl _
     obtain ⟨h1, d', h2, h3⟩ := hfuel str op rfl
     exact ⟨by
       generalize fuel n sid str = x1 at h1 h2 h3
